@@ -47,6 +47,9 @@ func runC01(c *an.Ctx) {
 	r015(c)
 	r016(c)
 	r017(c)
+	r055(c, "R01.8") // masked writes clear every unset masked field (shared with R05.5)
+	r054as(c, "R01.9")
+	c.Min("R01.8", 2)
 	c.Min("R01.1", 10)
 	c.Min("R01.2", 6)
 	c.Min("R01.3", 8)
